@@ -141,7 +141,7 @@ class C13(C.PipelineCheck):
             e.order_dirs = 'insertion' if reference else ('insertion', 'reverse')[e.choose(2)]
             if reference:
                 e.order_mode = 'insertion'
-            elif kind not in ('two-runs', 'duplicate', 'multi-payload') and ctx.tier != 'thorough':
+            elif kind not in ('two-runs', 'duplicate', 'multi-payload'):
                 # transformations are compared under two global schedules; all orders are covered by two-runs
                 e.order_mode = ('insertion', 'reverse')[e.choose(2)]
             else:
